@@ -225,3 +225,10 @@ PROPS["C07"] = dict(explanation="Bounded symbolic execution of one real write re
     bounds=["one fixed-length bucket, one row per request, value symbolic", "pre-states: {no writer} + {writer} x {0,1,2 queued requests}"],
     outside=["schedules of several truly concurrent writers, the timer flush racing with the request (single interpreted goroutine; the writer runs only when the client blocks)", "known finding region: a flush request of another client is already queued"],
     stubs=FS_STUBS + ["WAL writer goroutine: idle hook (serves queued flush requests when the client blocks)"], assumptions=COMMON_ASSUME)
+
+
+PROPS["C32"] = dict(explanation="Bounded symbolic execution of the real flush-to-trigger path over the file-system model: Writer.WriteCSM -> FlushCommandsToWAL (serializeTG, writePrimary, TriggerPluginDispatcher.AppendRecord/DispatchRecords) -> the dispatcher queue, drained with the body of TriggerPluginDispatcher.run inlined in the harness (its goroutine is not scheduled) -> trigger.Matcher.Match (regexp on concrete key paths: native call-out) -> Trigger.Fire. Three rows go to buckets chosen from AAPL/1D/OHLCV, AAPL/1D/OHLCV2, MSFT/1D/OHLCV in one request or two; three triggers with patterns */1D/OHLCV, AAPL/*/*, MSFT/1D/OHLCV must each receive exactly the records of the buckets their pattern names, once each, with the written interval index and payload.",
+    runs=[dict(pkg="executor", files=["c08_fixed.go", "c09_variable.go", "c11_range.go", "c32_triggers.go"], entries=["VerifC32Dispatch"], must_reach=["entered", "dispatched"], opts=dict(timeout=30))],
+    bounds=["3 rows, bucket (3 choices) and day (2 choices) per row case-split, values symbolic; one request or two", "3 fixed trigger patterns"],
+    outside=["concurrent writers and the dispatcher/trigger goroutines (run's loop body is replicated in the harness: edits inside run are not seen)", "other patterns and key shapes", "triggers during WAL replay"],
+    stubs=FS_STUBS + ["regexp.MatchString on concrete strings: native call-out"], assumptions=COMMON_ASSUME)
